@@ -4,21 +4,23 @@ register("C04",
          lean_modules=["GtModel.Model.Lazy", "GtModel.Props.C04"],
          theorems=["GtModel.C04.kvp_protocol", "GtModel.C04.fixedLen_protocol",
                    "GtModel.C04.repeat_until_tightened_terminates", "GtModel.C04.editCollection_protocol",
-                   "GtModel.C04.engine_protocol_partial",
-                   "GtModel.C04.engine_protocol_no_multiset", "GtModel.C04.editDistance_protocol",
-                   "GtModel.C04.editDistance_final_is_greedy", "GtModel.C04.mkEdit_invariant",
-                   "GtModel.C04.mkEdit_initial_bounds", "GtModel.C04.engine_protocol", "GtModel.C04.bounds_sound", "GtModel.C04.observed_step",
-                   "GtModel.C04.converges", "GtModel.C04.editDistance_fringe_lb_monotone",
-                   "GtModel.C04.editDistance_fringe_lb_sound", "GtModel.C04.editDistance_final_le_total"],
+                   "GtModel.C04.editDistance_protocol", "GtModel.C04.editDistance_final_is_greedy",
+                   "GtModel.C04.matcher_protocol", "GtModel.C04.multiset_protocol",
+                   "GtModel.C04.engine_protocol_every_machine", "GtModel.C04.mkEdit_invariant",
+                   "GtModel.C04.mkEdit_initial_bounds", "GtModel.C04.engine_protocol",
+                   "GtModel.C04.bounds_sound", "GtModel.C04.observed_step", "GtModel.C04.converges",
+                   "GtModel.C04.editDistance_fringe_lb_monotone", "GtModel.C04.editDistance_fringe_lb_sound",
+                   "GtModel.C04.editDistance_final_le_total"],
          streams=["trace"],
-         assumptions=["AtomHyp: MultiSetEdit+matcher machines obey "
-                      "the protocol whenever their children do (hypothesis of engine_protocol_partial; validated by the "
-                      "passive monitor of the trace stream on every bounded object of every run)",
-                      "make_distinct step counts and assignment-solver answers are oracles recorded from the run"],
+         assumptions=["make_distinct step counts and assignment-solver answers are oracles recorded from the run; the "
+                      "theorems hold for EVERY make_distinct oracle and every ADMISSIBLE solver answer (AssignOK: in "
+                      "range, ordered by from index, injective, of size min(nf, nt))",
+                      "for DictNode documents the invariant of the fresh MultiSetEdit (mkMs), i.e. admissibility of "
+                      "the recorded solver answers, is validated by the trace stream, not proved"],
          trusted=["harness/lazyinst.py (passive recorder and per-object protocol checker)"],
-         partial="engine_protocol proved with NO hypothesis on the machine for from.edits(to) without MultiSetEdit "
-                 "(no DictNode on the from side, distinct keys, to-side in the domain fkOK of the static "
-                 "FixedKeyDictNodeEdit bound; outside fkOK the property is false: finding D24 / coll-ub); "
-                 "engine_protocol_no_multiset: every machine of that fragment satisfying the structural invariant; "
-                 "over MultiSetEdit atoms it is conditional on matcher/multiset_protocol (AtomHyp); "
+         partial="engine_protocol_every_machine: proved with no hypothesis for EVERY machine class (const, kvp, str, "
+                 "fixed, EditCollection, EditDistance, MultiSetEdit+matcher) satisfying the structural invariant; "
+                 "engine_protocol: the machine of from.edits(to) satisfies it when there is no DictNode on the from "
+                 "side (distinct keys, to-side in the domain fkOK of the static FixedKeyDictNodeEdit bound; outside "
+                 "fkOK the property is FALSE: finding D24 / coll-ub); not proved: the invariant of mkMs; "
                  "'progress => strictly shrunk' holds for an observer that read bounds() before the step")
